@@ -272,8 +272,13 @@ def spec_lb_verify(ck):
             ctx.st.trace.append(('contains_key', None))
             return Bool(z3.Bool(fresh_name('unknown_key')))
         ex.overrides.append((re.compile(r'^HashMap::<(?:std::string::)?String, Arc<dyn Connector>>::contains_key::<'), contains_key))
-        lb = Agg('LoadBalanceConnector', {fields.index('connectors'): SeqV.from_items(names, 'String', 'vec')})
-        ex.inputs = dict(('member%d_is_defined' % i, defined[i]) for i in range(n))
+        # the members themselves are plain upstreams here (no members of their own); graphs of balancers: spec_lb_member_graph
+        ex.overrides.append((re.compile(r'^HashMap::<(?:std::string::)?String, Arc<dyn Connector>>::get::<'), lambda ctx: C.mk_option(ctx.ex, None)))
+        ex.eq_bound = 4
+        lbname = Bytes.symbolic('lbname', 'string')
+        selfref = z3.Or([C.bytes_equal(ex, st, nm, lbname) for nm in names]) if names else z3.BoolVal(False)
+        lb = Agg('LoadBalanceConnector', {fields.index('name'): lbname, fields.index('connectors'): SeqV.from_items(names, 'String', 'vec')})
+        ex.inputs = dict([('member%d_is_defined' % i, defined[i]) for i in range(n)] + [('lbname', lbname)] + [('member%d' % i, names[i]) for i in range(n)])
         outs = run_async(ex, st, fn, [Ref(st.alloc(lb), ()), Ref(st.alloc(Opaque('GlobalState', 'state')), ())])
         for o, r in outs:
             if o.status != 'returned' or r is None:
@@ -283,6 +288,182 @@ def spec_lb_verify(ck):
                 ex.prove(o, 'C17/verify/empty-member-list-is-rejected-at-start-up', z3.Not(ok))
             else:
                 ex.prove(o, 'C18/verify/accepted-load-balancer-has-only-defined-members', z3.Implies(ok, z3.And(defined)))
-                ex.prove(o, 'C18/verify/load-balancer-with-all-members-defined-is-accepted', z3.Implies(z3.And(defined), ok))
+                ex.prove(o, 'C18/verify/load-balancer-with-all-members-defined-is-accepted', z3.Implies(z3.And(z3.And(defined), z3.Not(selfref)), ok))
         ck.absorb(ex, 'LoadBalanceConnector::verify', [o for o, _ in outs])
-    ck.bounds['lb-verify'] = 'member lists of 0..3 names, each independently defined or not'
+    ck.bounds['lb-verify'] = 'member lists of 0..3 names (<= 4 bytes each, as the balancer\'s own name), each independently defined or not, none a balancer itself'
+
+
+def spec_lb_init(ck):
+    """init() at start-up: accepted => a hashBy balancer carries its compiled key expression -- hash_by() unwraps it on the
+    first request, so an accepted configuration without it crashes the proxy when traffic arrives"""
+    fn = ck.find(lambda: ck.db.method('LoadBalanceConnector', 'init', trait='Connector'), 'LoadBalanceConnector::init')
+    if fn is None:
+        return
+    ck.plans.append(lb_init_replay_plan)
+    fields = ck.si.structs.get('LoadBalanceConnector', ['name', 'connectors', 'algorithm', 'idx', 'hash_by'])
+    vn = ck.si.enums['Algorithm']
+    ex = ck.engine(loop_bound=4)
+    ex.benign_havoc = re.compile(BENIGN.pattern + r'|create_context|Default>::default|Into<Arc|parse$|real_type_of$|PartialEq>::(?:eq|ne)$|drop')
+    ex.no_inline = [re.compile(r'create_context$')]
+    st = State()
+    n = z3.BitVec('member_count', 64)
+    ex.assume(st, z3.ULE(n, BV(NMAX, 64)))
+    algo = z3.BitVec('algorithm', 64)
+    ex.assume(st, z3.ULT(algo, BV(len(vn), 64)))
+    members = SeqV(lambda i: Bytes.symbolic('member', 'string'), n, None, 'String', 'vec')
+    lb = Agg('LoadBalanceConnector', {fields.index('name'): Bytes.symbolic('lbname', 'string'), fields.index('connectors'): members,
+                                      fields.index('algorithm'): Agg('Algorithm', {}, algo, {vn.index('HashBy'): {0: Bytes.symbolic('expr', 'string')}}, vn),
+                                      fields.index('idx'): Agg('Atomic', {0: Int(BV(0, 64), 64)}),
+                                      fields.index('hash_by'): C.mk_option(ex, None)})      # #[serde(skip)]: None after deserialisation
+    lbcell = st.alloc(lb)
+    ex.inputs = {'member_count': n, 'algorithm': algo}
+    outs = run_async(ex, st, fn, [Ref(lbcell, (), True)])
+    reached = 0
+    for o, r in outs:
+        if o.status != 'returned' or r is None:
+            continue
+        ok, _ = _ok_payload(r)
+        hb = ex.load(o, lbcell, (('f', fields.index('hash_by'), 'Option<Value>'),))
+        d = hb.discr if isinstance(hb, Agg) else None
+        if d is None:
+            ck.add('C18/init/hash-key-expression-state', 'inconclusive', 'hash_by is not an Option value after init: %r' % (hb,))
+            continue
+        some = z3.BoolVal(d == 1) if isinstance(d, int) else d == BV(1, 64)
+        reached += 1
+        ex.prove(o, 'C18/init/accepted-hash-balancer-carries-its-compiled-key-expression', z3.Implies(z3.And(ok, algo == BV(vn.index('HashBy'), 64)), some))
+    if not reached:
+        ck.add('C18/init/reachability', 'vacuous', 'no path through init returned')
+    ck.absorb(ex, 'LoadBalanceConnector::init', [o for o, _ in outs])
+    ck.bounds['lb-init'] = 'any algorithm, member count 0..=%d; script compilation and type inference return arbitrary results' % NMAX
+
+
+def lb_init_replay_plan(ob):
+    f = ob.finding
+    if f is None or not ob.label.startswith('C18/init/'):
+        return None
+    n = min(int(f.inputs.get('member_count', 0)), 16)
+    return 'loadbalance', {'driver': 'lb_init', 'args': {'members': n}}, lambda o: bool(o.get('init_ok')) and bool(o.get('is_hash_by')) and not o.get('has_key_expr')
+
+
+# --------------------------------------------------------------------------- member graphs: an accepted balancer is not its own (indirect) member
+
+GRAPH_NAMES = [b'lb0', b'lb1', b'up0']
+
+
+def _name_eq(k, lit):
+    return z3.And([k.len == BV(len(lit), 64)] + [k.at(BV(j, 64)) == BV(lit[j], 8) for j in range(len(lit))])
+
+
+def spec_lb_member_graph(ck):
+    """verify() over every member graph of two balancers (lb0, lb1; 1..2 members each, every member one of lb0 / lb1 / a plain
+    upstream up0, all three defined): lb0 is accepted iff lb0 is not reachable from itself.  A balancer that reaches itself
+    recurses without end on the first request routed to it (connect -> member.connect -> ...): the stack overflows and the
+    process aborts."""
+    fn = ck.find(lambda: ck.db.method('LoadBalanceConnector', 'verify', trait='Connector'), 'LoadBalanceConnector::verify')
+    if fn is None:
+        return
+    ck.plans.append(lb_graph_replay_plan)
+    fields = ck.si.structs.get('LoadBalanceConnector', ['name', 'connectors', 'algorithm', 'idx', 'hash_by'])
+    NB = len(GRAPH_NAMES)
+    for n0 in (1, 2):
+        for n1 in (1, 2):
+            ex = ck.engine(loop_bound=14)
+            ex.benign_havoc = re.compile(BENIGN.pattern + r'|drop')
+            ex.iter_bound = 4
+            ex.eq_bound = 4
+            st = State()
+            sel = {}
+
+            def pick(hint):
+                k = z3.BitVec(hint, 64)
+                ex.assume(st, z3.ULT(k, BV(NB, 64)))
+
+                def at(j, k=k):
+                    r = BV(0, 8)
+                    for pos in range(3):
+                        ch = BV(GRAPH_NAMES[-1][pos], 8)
+                        for i in range(NB - 1):
+                            ch = z3.If(k == BV(i, 64), BV(GRAPH_NAMES[i][pos], 8), ch)
+                        r = z3.If(j == BV(pos, 64), ch, r)
+                    return simp(r)
+                sel[hint] = k
+                return Bytes(at, BV(3, 64), 'string')
+            objs = []
+            for b, cnt in ((0, n0), (1, n1)):
+                ms = [pick('lb%d_member%d' % (b, i)) for i in range(cnt)]
+                objs.append(Agg('LoadBalanceConnector', {fields.index('name'): Bytes.from_py(GRAPH_NAMES[b], 'string'),
+                                                         fields.index('connectors'): SeqV.from_items(ms, 'String', 'vec'),
+                                                         fields.index('idx'): Agg('Atomic', {0: Int(BV(0, 64), 64)}),
+                                                         fields.index('hash_by'): C.mk_option(ex, None)}))
+            objs.append(Agg('DirectConnector', {}))
+            # Arc<dyn Connector> values of the map: pointer to pointer to object
+            arcs = [st.alloc(Ref(st.alloc(o), ())) for o in objs]
+
+            def contains_key(ctx):
+                k = ctx.ex.deref(ctx.st, ctx.args[1])
+                return Bool(simp(z3.Or([_name_eq(k, nm) for nm in GRAPH_NAMES])))
+
+            def map_get(ctx):
+                k = ctx.ex.deref(ctx.st, ctx.args[1])
+                outs = []
+                rest = []
+                for i, nm in enumerate(GRAPH_NAMES):
+                    c = simp(_name_eq(k, nm))
+                    t, f = ctx.ex.branch(ctx.st, c)
+                    if t:
+                        s2 = ctx.st.fork()
+                        ctx.ex.assume(s2, c)
+                        outs.append((s2, C.mk_option(ctx.ex, Ref(arcs[i], ()))))
+                    rest.append(z3.Not(c))
+                t, f = ctx.ex.branch(ctx.st, z3.And(rest))
+                if t:
+                    ctx.ex.assume(ctx.st, z3.And(rest))
+                    outs.append((ctx.st, C.mk_option(ctx.ex, None)))
+                return outs
+            ex.overrides.append((re.compile(r'^HashMap::<(?:std::string::)?String, Arc<dyn Connector>>::contains_key::<'), contains_key))
+            ex.overrides.append((re.compile(r'^HashMap::<(?:std::string::)?String, Arc<dyn Connector>>::get::<'), map_get))
+            ex.inputs = dict(sel)
+            lb0cell = ex.load(st, arcs[0], ()).cell
+            outs = run_async(ex, st, fn, [Ref(lb0cell, ()), Ref(st.alloc(Opaque('GlobalState', 'state')), ())])
+            m0 = [sel['lb0_member%d' % i] for i in range(n0)]
+            m1 = [sel['lb1_member%d' % i] for i in range(n1)]
+            direct = z3.Or([k == BV(0, 64) for k in m0])
+            via1 = z3.And(z3.Or([k == BV(1, 64) for k in m0]), z3.Or([k == BV(0, 64) for k in m1]))
+            cyclic = simp(z3.Or(direct, via1))
+            reached = 0
+            for o, r in outs:
+                if o.status != 'returned' or r is None:
+                    continue
+                ok, _ = _ok_payload(r)
+                reached += 1
+                ex.prove(o, 'C18/verify/accepted-load-balancer-is-not-its-own-member', z3.Implies(ok, z3.Not(cyclic)))
+                ex.prove(o, 'C18/verify/load-balancer-whose-members-do-not-lead-back-to-it-is-accepted', z3.Implies(z3.Not(cyclic), ok))
+            # the walk visits each of the <= 4 member entries at most once: a path still looping after 14 iterations never ends
+            stuck = [o for o, r in outs if o.status == 'bounded']
+            for o in stuck:
+                ex.prove(o, 'C18/verify/member-graph-walk-terminates', z3.BoolVal(False))
+            if not stuck:
+                ck.add('C18/verify/member-graph-walk-terminates', 'discharged', 'no path reaches the unwinding bound (14 > 4 member entries)', None,
+                       'LoadBalanceConnector::verify graph %d+%d' % (n0, n1))
+            if not reached:
+                ck.add('C18/verify/member-graph/%d+%d/reachability' % (n0, n1), 'vacuous', 'no path through verify returned')
+            ck.absorb(ex, 'LoadBalanceConnector::verify graph %d+%d' % (n0, n1), [o for o, _ in outs])
+    ck.bounds['lb-member-graph'] = ('connector map {lb0, lb1 (balancers), up0 (plain)}, lb0 and lb1 with 1..2 members each, every member any of the three names: '
+                                    'all %d graphs; longer cycles (three or more balancers) are outside the bound' % sum(3 ** (a + b) for a in (1, 2) for b in (1, 2)))
+
+
+def lb_graph_replay_plan(ob):
+    f = ob.finding
+    if f is None or not ob.label.startswith('C18/verify/') or 'member' not in (ob.target or '') and 'graph' not in (ob.target or ''):
+        return None
+    i = f.inputs
+    nm = [x.decode() for x in GRAPH_NAMES]
+    g = {}
+    for b in (0, 1):
+        g['lb%d' % b] = [nm[int(i[k]) % len(nm)] for k in sorted(i) if k.startswith('lb%d_member' % b)]
+    case = {'driver': 'lb_graph', 'args': {'graph': g}}
+    if 'walk-terminates' in ob.label:
+        return 'loadbalance', case, lambda o: bool(o.get('hang'))
+    if 'is-not-its-own-member' in ob.label:
+        return 'loadbalance', case, lambda o: bool(o.get('verify_ok')) and bool(o.get('cyclic'))
+    return 'loadbalance', case, lambda o: o.get('verify_ok') is False and not o.get('cyclic')
